@@ -622,7 +622,7 @@ pub fn run_line(cache: AnyCache, words: &[&str]) -> Result<i64, BoxedError> {
                 .join()
                 .unwrap()
             })
-            .map_err(|e| e.into())
+            .map_err(|_e: String| Box::new(ScriptFail) as BoxedError)
         }
         ["other", rest @ ..] => match OTHER_CACHE.get() {
             Some(c) => run_line(c.as_any_cache(), rest),
